@@ -29,6 +29,8 @@ MAP = [
     ("greedy solution of node-weighted kFlowDecomp must carry its weights", "C01", "kFlowDecomp(flow_attr_origin='node') solved by the greedy route returned 'weights': None (reachable for graphs without edges, e.g. a single node) (also C02)"),
     ("greedy flow decomposition must respect weight_type=int", "C02", "greedy route of kFlowDecomp/MinFlowDecomp returned float weights for weight_type=int when the flow values were given as floats"),
     ("a failed (re-)solve must not leave a stale cached solution", "C13", "after an inconclusive (re-)solve the k-models, MinSetCover and MinErrorFlow (inconclusive few-flow-values phase) still handed out the previously cached solution / stayed solved"),
+    ("greedy pre-check of kFlowDecomp must count constraint edges", "C03", "with length_attr given and coverage by edge count the greedy pre-check of kFlowDecomp summed edge lengths: a greedy decomposition violating a subpath constraint was accepted and MinFlowDecomp returned fewer paths than any constrained decomposition (also C10; first pointed out by two seeding sub-agents, then reproduced by C03 after adding a length attribute to count-coverage cases)"),
+    ("elements_to_ignore_percentile must not drop", "C10", "kMinPathErrorCycles(flow_attr_origin='node', elements_to_ignore_percentile=p) always raised ValueError: the percentile selection replaced the internal ignore list that holds the node-expanded graph's original edges (also C11, C19 converse; pointed out by a seeding sub-agent, reproduced by the C10 percentile-vs-explicit-list cases)"),
     ("MinErrorFlow with few_flow_values_epsilon on node-weighted", "C16", "MinErrorFlow(flow_attr_origin='node', few_flow_values_epsilon>0) raised KeyError"),
 ]
 def main():
